@@ -48,10 +48,18 @@ func newAggregatedLabels(set LabelSet, by, without map[string]struct{}) *aggrega
 // By returns new set of labels containing only given list of labels.
 func (a *aggregatedLabels) By(labels ...logql.Label) logqlmetric.AggregatedLabels {
 	// An empty list restricts to the empty label set: by () keeps nothing.
+	by := make(map[string]struct{}, len(labels))
+	for _, l := range labels {
+		// Labels removed by an earlier by clause cannot reappear.
+		if _, ok := a.by[string(l)]; ok || !a.byActive {
+			by[string(l)] = struct{}{}
+		}
+	}
+
 	sub := &aggregatedLabels{
 		entries:  a.entries,
 		without:  a.without,
-		by:       buildSet(maps.Clone(a.by), labels...),
+		by:       by,
 		byActive: true,
 	}
 	return sub
